@@ -269,7 +269,7 @@ type c18Fb struct {
 func c18NewFb(spec ttyCons) (*c18Fb, error) {
 	d := &c18Fb{spec: spec, w: int(spec.W), h: int(spec.H), glyphs: map[ttyCell][]byte{}}
 	d.bpx = c18BytesPerPixel(spec.Bpp)
-	if d.bpx == 0 || spec.Font < 0 || spec.Font >= len(ttyFontNames) || spec.W < 1 || spec.H < 1 || spec.W > 100 || spec.H > 60 {
+	if d.bpx == 0 || spec.Font < 0 || spec.Font >= len(ttyFontNames) || spec.W < 1 || spec.H < 1 || spec.W > 640 || spec.H > 60 || (spec.W > 100 && spec.H > 3) {
 		return nil, fmt.Errorf("framebuffer description outside the generated domain: %+v", spec)
 	}
 	d.fnt = font.FindByName(ttyFontNames[spec.Font])
@@ -865,6 +865,12 @@ func c18GenFb(t *rapid.T) ttyCons {
 		maxW, maxH = 40, 20
 	}
 	c.W, c.H = ttyGenDim(t, "w", maxW), ttyGenDim(t, "h", maxH)
+	wide := rapid.IntRange(0, 39).Draw(t, "widescreen") == 0
+	if wide {
+		// a real screen's worth of columns (scanlines of more than 4 KiB), few lines
+		c.W = uint32(rapid.SampledFrom([]int{128, 170, 171, 180, 240, 256, 257, 320, 512, 513}).Draw(t, "widecols"))
+		c.H = uint32(rapid.IntRange(1, 3).Draw(t, "widerows"))
+	}
 	// rapid favours small indices: rotate so that every depth / font gets its share
 	depths := []uint8{8, 15, 16, 24, 32}
 	c.Bpp = depths[(rapid.IntRange(0, 4).Draw(t, "depth")+rapid.IntRange(0, 4).Draw(t, "depthrot"))%5]
@@ -896,6 +902,18 @@ func c18GenCase(t *rapid.T, consGen func(*rapid.T) ttyCons) ttyCase {
 		reattach = nil // known finding: a re-attached terminal writes at a stale offset
 	}
 	c.Ops = ttyGenOps(t, ttyGenOp(reattach, true))
+	if c.Cons.W > 100 {
+		// lines that reach the right-hand columns of a wide screen
+		for k := rapid.IntRange(1, 3).Draw(t, "longlines"); k > 0; k-- {
+			n := int(c.Cons.W) - rapid.IntRange(0, 12).Draw(t, "shortby")
+			line := make([]int, n)
+			for i := range line {
+				line[i] = 0x21 + (i*7+k)%0x5e
+			}
+			at := rapid.IntRange(0, len(c.Ops)).Draw(t, "longlineat")
+			c.Ops = append(c.Ops[:at], append([]ttyOp{{K: "w", B: line}}, c.Ops[at:]...)...)
+		}
+	}
 	return c
 }
 
